@@ -214,6 +214,9 @@ def find_witness(env, con, obs, budget):
         if isinstance(r, staticmethod):
             r = r.__func__
         return r(env, con, obs)
+    if getattr(con, "recv", None) is not None or getattr(con, "setup", None) is not None:
+        # generators / methods on heap objects need a scenario driver (Contract.replay)
+        return {"confirmed": False, "inputs_tried": 0, "note": "no generic native replay for generator/heap contracts"}
     fn, _ = resolve_target(con.target)
     fn_params = set(inspect.signature(fn).parameters)
     tried = 0
@@ -250,6 +253,16 @@ def find_witness(env, con, obs, budget):
 
 def run_bounded(env, con, tier, seed):
     """bounded stand-in: run-time contract checking of the real function over the contract's corpus"""
+    br = getattr(con, "bounded_run", None)
+    if br is not None:
+        if isinstance(br, staticmethod):
+            br = br.__func__
+        t0 = time.time()
+        r = br(tier, seed)
+        r.setdefault("function", con.target)
+        r.setdefault("kind", "bounded")
+        r["time_s"] = round(time.time() - t0, 2)
+        return r
     fn, _ = resolve_target(con.target)
     b = con.bounded
     if isinstance(b, staticmethod):
